@@ -60,7 +60,7 @@ func checkC08(c *Ctx, r *Result, tier string) {
 		}
 	}
 	sort.Slice(ops, func(i, j int) bool { return ops[i].Name < ops[j].Name })
-	r.Floor("R08a-operators", len(ops), 25)
+	r.Floor("R08a-operators", len(ops), 20)
 
 	c08Brackets(c, r, ops, delta)
 	c08Templates(c, r, gr)
@@ -322,7 +322,7 @@ func c08Templates(c *Ctx, r *Result, gr *Grammar) {
 			keys[k] = true
 		}
 	}
-	r.Floor("R08b-templates", len(keys), 45)
+	r.Floor("R08b-templates", len(keys), 35)
 	// special cases: node names compared with ast.Name in the printer's helper functions
 	special := map[string]bool{}
 	fName := c.Field("parser", "ASTNode", "Name")
@@ -387,7 +387,7 @@ func c08Templates(c *Ctx, r *Result, gr *Grammar) {
 			}
 		}
 	}
-	r.Floor("R08b", n, 50)
+	r.Floor("R08b", n, 40)
 }
 
 // c08StringKind: R08c.
